@@ -55,4 +55,10 @@ CHECKS = {
         "assumptions": ["orders among goroutines that become ready at the same virtual instant are chosen by the Go runtime; results completing exactly at the stop instant are accepted either way"],
         "timeout_quick": 400, "timeout_thorough": 1800,
     },
+    "C06": {
+        "pkg": "c06",
+        "rule": "rapid state machine over the request handler and transmit-timestamp update through the verif hooks.",
+        "assumptions": ["updates for an exchange whose (client, rx) key was reused by a later exchange are not issued (keying ambiguity that needs a backward clock step)"],
+        "timeout_quick": 400, "timeout_thorough": 1800,
+    },
 }
